@@ -844,6 +844,11 @@ where
         let s: &'a str = Readable::<'a, C>::read_from(reader)?;
         Ok(Self(CompactString::new(s)))
     }
+
+    #[inline]
+    fn minimum_bytes_needed() -> usize {
+        <&'a str as Readable<'a, C>>::minimum_bytes_needed()
+    }
 }
 
 impl FromSql for TableName {
@@ -889,6 +894,11 @@ where
     fn read_from<R: Reader<'a, C>>(reader: &mut R) -> Result<Self, <C as Context>::Error> {
         let s: &'a str = Readable::<'a, C>::read_from(reader)?;
         Ok(Self(CompactString::new(s)))
+    }
+
+    #[inline]
+    fn minimum_bytes_needed() -> usize {
+        <&'a str as Readable<'a, C>>::minimum_bytes_needed()
     }
 }
 
